@@ -197,12 +197,13 @@ Qed.
 Lemma nodupv_filter i (q : row -> bool) (t : table) :
   nodupv (colvals i t) = true -> nodupv (colvals i (filter q t)) = true.
 Proof.
-  induction t as [|r t IH]; [reflexivity|]. cbn [colvals map nodupv filter]. intros H.
+  pose proof (vmem_filter) as VF. unfold colvals in *.
+  induction t as [|r t IH]; [reflexivity|]. cbn [map nodupv filter]. intros H.
   apply andb_true_iff in H. destruct H as [H1 H2]. destruct (q r); [|exact (IH H2)].
-  cbn [colvals map nodupv]. rewrite (IH H2), andb_true_r.
+  cbn [map nodupv]. rewrite (IH H2), andb_true_r.
   destruct (is_null (col_val i r)); [reflexivity|]. cbn [orb] in *.
   destruct (vmem (col_val i r) (map (col_val i) (filter q t))) eqn:E; [|reflexivity].
-  apply (vmem_filter _ i q t) in E. unfold colvals in E. rewrite E in H1. discriminate.
+  apply (VF _ i q t) in E. rewrite E in H1. discriminate.
 Qed.
 Lemma uniq_from_filter ds (q : row -> bool) : forall i (t : table),
   uniq_from ds i t = true -> uniq_from ds i (filter q t) = true.
@@ -218,18 +219,386 @@ Lemma vmem_kept i (q : row -> bool) (t : table) v :
   vmem v (colvals i (filter (fun r => negb (q r)) t)) =
   vmem v (colvals i t) && negb (vmem v (colvals i (filter q t))).
 Proof.
+  pose proof (vmem_filter) as VF. unfold colvals in *. unfold vmem in *.
   intros Hu Nv. induction t as [|r t IH]; [reflexivity|].
-  cbn [colvals map nodupv] in Hu. apply andb_true_iff in Hu. destruct Hu as [H1 H2].
-  specialize (IH H2). cbn [filter]. destruct (q r) eqn:Q; cbn [negb colvals map vmem existsb].
-  - fold (vmem v (map (col_val i) (filter (fun r0 => negb (q r0)) t))). fold (vmem v (map (col_val i) t)).
-    fold (vmem v (map (col_val i) (filter q t))). unfold colvals in IH. rewrite IH.
-    destruct (value_eqb v (col_val i r)) eqn:E; cbn [orb negb]; [|reflexivity].
+  cbn [map nodupv] in Hu. apply andb_true_iff in Hu. destruct Hu as [H1 H2].
+  specialize (IH H2). cbn [filter]. destruct (q r) eqn:Q; cbn [negb map existsb].
+  - rewrite IH. destruct (value_eqb v (col_val i r)) eqn:E; cbn [orb negb]; [|reflexivity].
     rewrite andb_false_r. apply value_eqb_eq in E. rewrite <- E in H1. rewrite Nv in H1. cbn [orb] in H1.
-    apply negb_true_iff in H1. unfold colvals in H1. rewrite H1. reflexivity.
-  - fold (vmem v (map (col_val i) (filter (fun r0 => negb (q r0)) t))). fold (vmem v (map (col_val i) t)).
-    fold (vmem v (map (col_val i) (filter q t))). unfold colvals in IH. rewrite IH.
-    destruct (value_eqb v (col_val i r)) eqn:E; cbn [orb]; [|reflexivity].
+    apply negb_true_iff in H1. unfold vmem in H1. rewrite H1. reflexivity.
+  - rewrite IH. destruct (value_eqb v (col_val i r)) eqn:E; cbn [orb]; [|reflexivity].
     apply value_eqb_eq in E. rewrite <- E in H1. rewrite Nv in H1. cbn [orb] in H1. apply negb_true_iff in H1.
-    destruct (vmem v (map (col_val i) (filter q t))) eqn:X; [|rewrite andb_true_r; reflexivity].
-    apply (vmem_filter v i q t) in X. unfold colvals in *. congruence.
+    unfold vmem in H1. destruct (existsb (value_eqb v) (map (col_val i) (filter q t))) eqn:X; [|rewrite andb_true_r; reflexivity].
+    apply (VF v i q t) in X. congruence.
+Qed.
+
+(* ---------------------------------------------------------------- one foreign-key column *)
+Lemma fk_cols_none ds : forall i, fk_cols_from ds i = [] -> forall d, In d ds -> c_fk d = None.
+Proof.
+  induction ds as [|d0 ds IH]; intros i H d Hd; [destruct Hd|]. cbn [fk_cols_from] in H.
+  destruct (c_fk d0) eqn:E; [discriminate|]. destruct Hd as [<-|Hd]; [exact E|exact (IH (S i) H d Hd)].
+Qed.
+Lemma fk_row_nofk ds : (forall d, In d ds -> c_fk d = None) -> forall vs (P : table), fk_row_from ds vs P = true.
+Proof.
+  induction ds as [|d ds IH]; intros H vs P; [reflexivity|]. destruct vs as [|v vs]; [reflexivity|].
+  cbn [fk_row_from]. rewrite (H d (or_introl eq_refl)), IH; [reflexivity|]. intros x Hx. apply H. right. exact Hx.
+Qed.
+Lemma casc_row_nofk ds : (forall d, In d ds -> c_fk d = None) -> forall vs (g : table), casc_row_from ds vs g = false.
+Proof.
+  induction ds as [|d ds IH]; intros H vs g; [reflexivity|]. destruct vs as [|v vs]; [reflexivity|].
+  cbn [casc_row_from]. rewrite (H d (or_introl eq_refl)), IH; [reflexivity|]. intros x Hx. apply H. right. exact Hx.
+Qed.
+
+(* exactly one foreign-key column, at position j: what the row-level tests compute *)
+Lemma fk_single ds : forall i j rc act,
+  fk_cols_from ds i = [(j, rc, act)] ->
+  (i <= j)%nat /\
+  (forall vs (P : table), length vs = length ds ->
+     fk_row_from ds vs P = (is_null (nth (j - i) vs VNull) || vmem (nth (j - i) vs VNull) (colvals rc P))) /\
+  (forall vs (g : table), length vs = length ds ->
+     casc_row_from ds vs g = ((act =? 2) && negb (is_null (nth (j - i) vs VNull)) && vmem (nth (j - i) vs VNull) (colvals rc g))).
+Proof.
+  induction ds as [|d ds IH]; intros i j rc act H; [discriminate|]. cbn [fk_cols_from] in H.
+  destruct (c_fk d) as [f|] eqn:E.
+  - injection H as <- <- <- H. pose proof (fk_cols_none ds (S i) H) as Hn. split; [lia|]. rewrite Nat.sub_diag. split.
+    + intros vs P Hl. destruct vs as [|v vs]; [discriminate|]. cbn [fk_row_from nth]. rewrite E, (fk_row_nofk ds Hn), andb_true_r. reflexivity.
+    + intros vs g Hl. destruct vs as [|v vs]; [discriminate|]. cbn [casc_row_from nth]. rewrite E, (casc_row_nofk ds Hn), orb_false_r. reflexivity.
+  - destruct (IH (S i) j rc act H) as [Hle [H1 H2]]. split; [lia|]. split.
+    + intros vs P Hl. destruct vs as [|v vs]; [discriminate|]. cbn [fk_row_from]. rewrite E. cbn [andb].
+      rewrite (H1 vs P) by (cbn [length] in Hl; lia). replace (j - i)%nat with (S (j - S i)) by lia. reflexivity.
+    + intros vs g Hl. destruct vs as [|v vs]; [discriminate|]. cbn [casc_row_from]. rewrite E. cbn [orb].
+      rewrite (H2 vs g) by (cbn [length] in Hl; lia). replace (j - i)%nat with (S (j - S i)) by lia. reflexivity.
+Qed.
+
+(* ---------------------------------------------------------------- the scan of the child entries *)
+Definition hit (vals : list value) (j : nat) (e : entry) : bool := existsb (veq (col_val j (e_row e))) vals.
+
+Lemma child_scan_block j act vals es :
+  (act =? 2) = false -> child_scan j act vals es = if existsb (hit vals j) es then None else Some [].
+Proof.
+  intros Ha. induction es as [|e es IH]; [reflexivity|]. cbn [child_scan existsb]. fold (hit vals j e).
+  rewrite Ha. cbn [negb]. destruct (hit vals j e); cbn [andb orb]; [reflexivity|]. rewrite IH.
+  destruct (existsb (hit vals j) es); reflexivity.
+Qed.
+Lemma child_scan_casc j vals es : child_scan j 2 vals es = Some (map e_id (filter (hit vals j) es)).
+Proof.
+  induction es as [|e es IH]; [reflexivity|]. cbn [child_scan filter]. fold (hit vals j e).
+  change (2 =? 2) with true. cbn [negb]. rewrite andb_false_r, IH. destruct (hit vals j e); reflexivity.
+Qed.
+
+Lemma veq_exists a vals :
+  existsb (veq a) vals = if is_null a then existsb is_null vals else vmem a vals.
+Proof.
+  unfold vmem. induction vals as [|b vals IH]; [destruct (is_null a); reflexivity|]. cbn [existsb]. rewrite IH.
+  destruct a; cbn [is_null veq]; try reflexivity. destruct b; reflexivity.
+Qed.
+
+Lemma drop_ids_filter (p : entry -> bool) (es : list entry) :
+  NoDup (map e_id es) -> drop_ids (map e_id (filter p es)) es = filter (fun e => negb (p e)) es.
+Proof.
+  intros Hnd. unfold drop_ids. apply filter_ext_in. intros e He. f_equal.
+  destruct (p e) eqn:P.
+  - apply existsb_exists. exists (e_id e). split; [|apply Z.eqb_refl]. apply in_map. apply filter_In. split; assumption.
+  - destruct (existsb (Z.eqb (e_id e)) (map e_id (filter p es))) eqn:X; [|reflexivity].
+    apply existsb_exists in X. destruct X as [k [Hk Ek]]. apply Z.eqb_eq in Ek. subst k.
+    apply in_map_iff in Hk. destruct Hk as [x [Hid Hx]]. apply filter_In in Hx. destruct Hx as [Hx Px].
+    pose proof (NoDup_id_eq _ _ _ Hnd Hx He Hid) as ->. congruence.
+Qed.
+
+Lemma visible_filter_rows (p : entry -> bool) (q : row -> bool) (es : list entry) :
+  (forall e, In e es -> live e = true -> p e = q (e_row e)) ->
+  map e_row (filter live (filter (fun e => negb (p e)) es)) = filter (fun r => negb (q r)) (map e_row (filter live es)).
+Proof.
+  induction es as [|e es IH]; intros H; [reflexivity|].
+  assert (IHl := IH (fun x Hx => H x (or_intror Hx))). cbn [filter].
+  destruct (live e) eqn:L.
+  - rewrite (H e (or_introl eq_refl) L). cbn [map filter]. destruct (q (e_row e)) eqn:Q; cbn [negb].
+    + exact IHl.
+    + cbn [filter]. rewrite L. cbn [map]. f_equal. exact IHl.
+  - destruct (negb (p e)); cbn [filter]; rewrite ?L; exact IHl.
+Qed.
+
+(* ---------------------------------------------------------------- the DELETE statement: child table *)
+Lemma valid_split sch (P C : table) :
+  valid_db sch (P, C) = true <->
+  forallb (row_ok (s_p sch)) P = true /\ uniq_ok (s_p sch) P = true /\
+  forallb (row_ok (s_c sch)) C = true /\ uniq_ok (s_c sch) C = true /\ fk_ok (s_c sch) P C = true.
+Proof. unfold valid_db. cbn [fst snd]. rewrite !andb_true_iff. tauto. Qed.
+
+Lemma fk_ok_filter cs (P C : table) (g : row -> bool) : fk_ok cs P C = true -> fk_ok cs P (filter g C) = true.
+Proof. unfold fk_ok. apply forallb_filter. Qed.
+
+Lemma delete_c_exact sch st w :
+  wf_schema sch -> Inv sch st -> has_dead (select_rows (s_c sch) (d_c st) w) = false ->
+  exists st', do_delete sch TC st w = (true, st') /\
+              exec_write sch (abs_db st) (SDel TC w) = (true, abs_db st') /\ Inv sch st'.
+Proof.
+  intros W I Hd. pose proof (inv_valid _ _ I) as Hv. unfold abs_db in Hv.
+  apply valid_split in Hv. destruct Hv as [V1 [V2 [V3 [V4 V5]]]].
+  pose proof (inv_c _ _ I) as Tc.
+  pose proof (select_rows_live _ _ _ w Tc V4 Hd) as Hsel.
+  unfold do_delete. cbn [cols_of ts_of set_ts]. rewrite Hsel.
+  eexists. split; [reflexivity|].
+  assert (Habs : abs_db (mkD (d_p st) (mkT (tombstone (live_sel (d_c st) w) (ents (d_c st)))
+                                           (idx_del_from (idxs (d_c st)) (s_c sch) 0 (live_sel (d_c st) w))) (d_next st))
+                 = (visible (d_p st), filter (fun r => negb (wpass w r)) (visible (d_c st)))).
+  { unfold abs_db. cbn [d_p d_c]. rewrite visible_tomb; [reflexivity|]. destruct Tc as [_ _ [Hnd _] _]. exact Hnd. }
+  assert (Hval : valid_db sch (visible (d_p st), filter (fun r => negb (wpass w r)) (visible (d_c st))) = true).
+  { apply valid_split. repeat split; try assumption.
+    - apply forallb_filter. exact V3.
+    - unfold uniq_ok in *. apply uniq_from_filter. exact V4.
+    - apply fk_ok_filter. exact V5. }
+  split.
+  - unfold exec_write. cbn [apply_stmt abs_db fst snd]. rewrite Habs.
+    unfold abs_db in Hval. cbn [fst snd] in *. rewrite Hval. reflexivity.
+  - constructor; cbn [d_p d_c d_next].
+    + rewrite Habs. exact Hval.
+    + exact (inv_p _ _ I).
+    + apply tinv_del; assumption.
+    + exact (inv_next _ _ I).
+Qed.
+
+(* ---------------------------------------------------------------- the DELETE statement: parent table *)
+Lemma filter_true {A} (l : list A) (f : A -> bool) : (forall x, In x l -> f x = true) -> filter f l = l.
+Proof.
+  induction l as [|x l IH]; intros H; [reflexivity|]. cbn [filter]. rewrite (H x (or_introl eq_refl)).
+  f_equal. apply IH. intros y Hy. apply H. right. exact Hy.
+Qed.
+
+Lemma drop_ids_nil es : drop_ids [] es = es.
+Proof. unfold drop_ids. apply filter_true. intros x _. reflexivity. Qed.
+
+Lemma child_scan_novals j act es : child_scan j act [] es = Some [].
+Proof. induction es as [|e es IHe]; [reflexivity|]. cbn [child_scan existsb andb]. rewrite IHe. reflexivity. Qed.
+Lemma child_scans_novals fks es : child_scans fks [] es = Some [].
+Proof.
+  induction fks as [|[[j rc] act] fks IH]; [reflexivity|]. cbn [child_scans].
+  rewrite child_scan_novals, IH. reflexivity.
+Qed.
+
+Lemma tinv_ext ds a b n : ents a = ents b -> idxs a = idxs b -> tinv ds a n -> tinv ds b n.
+Proof. destruct a as [ea ia], b as [eb ib]. cbn [ents idxs]. intros -> ->. exact (fun H => H). Qed.
+
+Lemma has_keyval_nth ds : forall vs i d,
+  has_keyval ds vs = false -> nth_error ds i = Some d -> is_key d = true -> (i < length vs)%nat ->
+  is_null (nth i vs VNull) = true.
+Proof.
+  induction ds as [|d0 ds IH]; intros vs i d H Hd K Hi; [destruct i; discriminate|].
+  destruct vs as [|v vs]; [cbn [length] in Hi; lia|]. cbn [has_keyval] in H. apply orb_false_iff in H. destruct H as [H0 H1].
+  destruct i as [|i].
+  - cbn [nth_error] in Hd. injection Hd as ->. rewrite K in H0. cbn [andb] in H0. apply negb_false_iff in H0. exact H0.
+  - cbn [nth_error] in Hd. cbn [nth]. apply (IH vs i d H1 Hd K). cbn [length] in Hi. lia.
+Qed.
+
+Lemma existsb_filter_same {A} (f g : A -> bool) l :
+  (forall x, In x l -> g x = false -> f x = false) -> existsb f (filter g l) = existsb f l.
+Proof.
+  induction l as [|x l IH]; intros H; [reflexivity|]. cbn [filter existsb].
+  assert (IHl := IH (fun y Hy => H y (or_intror Hy))).
+  destruct (g x) eqn:G; cbn [existsb]; [rewrite IHl; reflexivity|].
+  rewrite (H x (or_introl eq_refl) G). exact IHl.
+Qed.
+
+Lemma flat_map_map_nil {A B C} (f : A -> C -> B) (l : list A) : flat_map (fun e => map (f e) []) l = [].
+Proof. induction l as [|x l IH]; [reflexivity|]. cbn [flat_map map app]. exact IH. Qed.
+Lemma flat_map_map_one {A B C} (f : A -> C -> B) (c : C) (l : list A) :
+  flat_map (fun e => map (f e) [c]) l = map (fun e => f e c) l.
+Proof. induction l as [|x l IH]; [reflexivity|]. cbn [flat_map map app]. now f_equal. Qed.
+
+Lemma delete_p_exact sch st w :
+  wf_schema sch -> Inv sch st -> stmt_class sch st (SDel TP w) = 0 ->
+  exists ok st', do_delete sch TP st w = (ok, st') /\
+                 exec_write sch (abs_db st) (SDel TP w) = (ok, abs_db st') /\ Inv sch st'.
+Proof.
+  intros W I Hcls. pose proof (inv_valid _ _ I) as Hv. unfold abs_db in Hv.
+  apply valid_split in Hv. destruct Hv as [V1 [V2 [V3 [V4 V5]]]].
+  pose proof (inv_p _ _ I) as Tp. pose proof (inv_c _ _ I) as Tc.
+  cbn [stmt_class cols_of ts_of] in Hcls.
+  destruct (has_dead (select_rows (s_p sch) (d_p st) w)) eqn:Hd; [discriminate|].
+  pose proof (select_rows_live _ _ _ w Tp V2 Hd) as Hsel. rewrite Hsel in Hcls.
+  set (sel := live_sel (d_p st) w) in *.
+  destruct (del_dead_child sch st (del_vals sch sel)) eqn:C16; [discriminate|].
+  destruct (del_null_match sch st (del_vals sch sel)) eqn:C17; [discriminate|].
+  destruct (del_casc_keys sch st (del_vals sch sel)) eqn:C19; [discriminate|]. clear Hcls.
+  set (P := visible (d_p st)) in *. set (C := visible (d_c st)) in *.
+  set (P' := filter (fun r => negb (wpass w r)) P).
+  set (gone := filter (wpass w) P).
+  set (g := fun r : row => negb (casc_row_from (s_c sch) r gone)).
+  assert (Hgone : map e_row sel = gone) by (apply rows_of_sel).
+  assert (HndP : NoDup (map e_id (ents (d_p st)))) by (destruct Tp as [_ _ [H _] _]; exact H).
+  assert (HndC : NoDup (map e_id (ents (d_c st)))) by (destruct Tc as [_ _ [H _] _]; exact H).
+  (* what is left to show once the child side is settled: ids = the child entries removed *)
+  assert (Hmain : forall ids,
+            visible (mkT (drop_ids ids (ents (d_c st))) (idxs (d_c st))) = filter g C ->
+            tinv (s_c sch) (mkT (drop_ids ids (ents (d_c st))) (idxs (d_c st))) (d_next st) ->
+            fk_ok (s_c sch) P' (filter g C) = true ->
+            let st' := mkD (mkT (tombstone sel (ents (d_p st))) (idx_del_from (idxs (d_p st)) (s_p sch) 0 sel))
+                           (mkT (drop_ids ids (ents (d_c st))) (idxs (d_c st))) (d_next st) in
+            exec_write sch (visible (d_p st), visible (d_c st)) (SDel TP w) = (true, abs_db st') /\ Inv sch st').
+  { intros ids Hvis Htc Hfk st'.
+    assert (Habs : abs_db st' = (P', filter g C)).
+    { unfold abs_db, st'. cbn [d_p d_c]. rewrite Hvis. unfold sel. rewrite visible_tomb by exact HndP. reflexivity. }
+    assert (Hval : valid_db sch (P', filter g C) = true).
+    { apply valid_split. repeat split.
+      - apply forallb_filter. exact V1.
+      - unfold uniq_ok in *. apply uniq_from_filter. exact V2.
+      - apply forallb_filter. exact V3.
+      - unfold uniq_ok in *. apply uniq_from_filter. exact V4.
+      - exact Hfk. }
+    split.
+    - unfold exec_write.
+      change (apply_stmt sch (visible (d_p st), visible (d_c st)) (SDel TP w)) with (P', filter g C).
+      rewrite Hval, Habs. reflexivity.
+    - constructor.
+      + rewrite Habs. exact Hval.
+      + unfold st'. cbn [d_p d_next]. unfold sel. apply tinv_del; assumption.
+      + unfold st'. cbn [d_c d_next]. exact Htc.
+      + exact (inv_next _ _ I). }
+  unfold do_delete. cbn [cols_of ts_of set_ts d_p d_c d_next]. rewrite Hsel. fold sel.
+  (* the child rows of the reference all have the width of the child table *)
+  assert (HlenC : forall r, In r C -> length r = length (s_c sch)).
+  { intros r Hr. unfold C, visible in Hr. apply in_map_iff in Hr. destruct Hr as [e [<- He]]. apply filter_In in He.
+    destruct Tc as [_ _ _ [Hrf _]]. apply row_fits_len. apply Hrf. tauto. }
+  destruct (fk_cols sch) as [|[[j rc] act] fks] eqn:FK.
+  - (* no foreign key at all *)
+    pose proof (fk_cols_none (s_c sch) 0 FK) as Hn.
+    assert (Hdv : del_vals sch sel = []).
+    { unfold del_vals. rewrite FK. apply (flat_map_map_nil (fun e f => col_val (snd (fst f)) (e_row e))). }
+    rewrite Hdv. cbn [child_scans]. exists true. eexists. split; [reflexivity|].
+    unfold abs_db at 1. apply Hmain.
+    + rewrite drop_ids_nil. symmetry. apply filter_true. intros r _. unfold g. rewrite (casc_row_nofk _ Hn). reflexivity.
+    + apply (tinv_ext _ (d_c st)); [cbn [ents]; rewrite drop_ids_nil; reflexivity|reflexivity|exact Tc].
+    + unfold fk_ok. apply forallb_forall. intros r _. apply fk_row_nofk. exact Hn.
+  - (* one foreign key: column j of c references column rc of p *)
+    assert (Hfks : fks = []).
+    { pose proof (wf_fk1 _ W) as H1. unfold fk_count in H1. unfold fk_cols in FK. rewrite FK in H1. cbn [length] in H1.
+      destruct fks; [reflexivity|cbn [length] in H1; lia]. }
+    subst fks. unfold fk_cols in FK.
+    destruct (fk_single (s_c sch) 0 j rc act FK) as [_ [Hrow Hcasc]]. rewrite Nat.sub_0_r in Hrow, Hcasc.
+    (* the referenced column is a declared key of p: its values are unique *)
+    assert (Hrc : nodupv (colvals rc P) = true).
+    { assert (Hdx : exists d, In d (s_c sch) /\ c_fk d = Some (mkFk rc act)).
+      { clear -FK. revert FK. generalize 0%nat. induction (s_c sch) as [|d ds IH]; intros i H; [discriminate|].
+        cbn [fk_cols_from] in H. destruct (c_fk d) as [f|] eqn:E.
+        - injection H as _ H1 H2 _. exists d. split; [left; reflexivity|]. rewrite E. destruct f as [fc fa]. cbn [fk_col fk_act] in *. subst. reflexivity.
+        - destruct (IH _ H) as [d' [H1 H2]]. exists d'. split; [right; exact H1|exact H2]. }
+      destruct Hdx as [d [Hin Hf]]. destruct (wf_fk_decl _ W d _ Hin Hf) as [pd [Hpd K]]. cbn [fk_col] in Hpd.
+      unfold uniq_ok in V2. exact (uniq_from_nth (s_p sch) 0 P rc pd V2 Hpd K). }
+    set (vals := map (fun e => col_val rc (e_row e)) sel).
+    assert (Hdv : del_vals sch sel = vals).
+    { unfold del_vals, fk_cols. rewrite FK. unfold vals.
+      apply (flat_map_map_one (fun e (f : nat * nat * Z) => col_val (snd (fst f)) (e_row e)) (j, rc, act)). }
+    assert (Hvg : colvals rc gone = vals).
+    { rewrite <- Hgone. unfold colvals, vals. rewrite map_map. reflexivity. }
+    rewrite Hdv in *.
+    assert (Hcs : (if match vals with [] => true | _ => false end then Some []
+                   else child_scans [(j, rc, act)] vals (ents (d_c st))) = child_scans [(j, rc, act)] vals (ents (d_c st))).
+    { destruct vals; [rewrite child_scans_novals; reflexivity|reflexivity]. }
+    rewrite Hcs. cbn [child_scans].
+    (* on live child entries the scan test is the reference's test on the row *)
+    assert (Hhit : forall e, In e (ents (d_c st)) -> live e = true ->
+              hit vals j e = negb (is_null (col_val j (e_row e))) && vmem (col_val j (e_row e)) vals).
+    { intros e He Le. unfold hit. rewrite veq_exists. destruct (is_null (col_val j (e_row e))) eqn:N; [|reflexivity].
+      cbn [negb andb]. unfold del_null_match, fk_cols in C17. rewrite FK in C17. cbn [existsb fst snd] in C17. rewrite orb_false_r in C17.
+      destruct (existsb is_null vals); [|reflexivity]. cbn [andb] in C17.
+      assert (X : existsb (fun e0 => live e0 && is_null (col_val j (e_row e0))) (ents (d_c st)) = true).
+      { apply existsb_exists. exists e. split; [exact He|]. rewrite Le, N. reflexivity. }
+      congruence. }
+    (* a kept parent value: held before and not removed *)
+    assert (Hkept : forall v, is_null v = false ->
+              vmem v (colvals rc P') = vmem v (colvals rc P) && negb (vmem v vals)).
+    { intros v Nv. unfold P'. rewrite (vmem_kept rc (wpass w) P v Hrc Nv). fold gone. rewrite Hvg. reflexivity. }
+    destruct (act =? 2) eqn:A.
+    + (* CASCADE *)
+      apply Z.eqb_eq in A. subst act. rewrite child_scan_casc. exists true. eexists. split; [reflexivity|].
+      rewrite app_nil_r, (drop_ids_filter _ _ HndC).
+      unfold abs_db at 1. apply Hmain.
+      * unfold visible. cbn [ents]. fold (visible (d_c st)). fold C.
+        rewrite (visible_filter_rows (hit vals j) (fun r => casc_row_from (s_c sch) r gone)); [reflexivity|].
+        intros e He Le. rewrite (Hhit e He Le).
+        rewrite Hcasc by (destruct Tc as [_ _ _ [Hrf _]]; apply row_fits_len; apply Hrf; exact He).
+        rewrite Hvg. reflexivity.
+      * (* the child table without the cascaded entries *)
+        destruct Tc as [Hex Hnn [_ Hid] [Hrf Hli]]. constructor.
+        -- intros i d Hd K v Nv. unfold get_idx. cbn [idxs]. fold (get_idx (d_c st) i). rewrite (Hex i d Hd K v Nv).
+           unfold live_has. cbn [ents]. symmetry. apply existsb_filter_same.
+           intros x Hx Gx. apply negb_false_iff in Gx. destruct (live x) eqn:Lx; [|reflexivity]. cbn [andb].
+           (* x is live and cascaded: class 19 says it holds no key value *)
+           unfold del_casc_keys, fk_cols in C19. rewrite FK in C19. cbn [child_scans] in C19. rewrite child_scan_casc in C19.
+           rewrite app_nil_r in C19.
+           assert (Hk : has_keyval (s_c sch) (e_row x) = false).
+           { destruct (has_keyval (s_c sch) (e_row x)) eqn:HK; [|reflexivity]. exfalso.
+             assert (X : existsb (fun e => live e && existsb (Z.eqb (e_id e)) (map e_id (filter (hit vals j) (ents (d_c st)))) &&
+                                           has_keyval (s_c sch) (e_row e)) (ents (d_c st)) = true).
+             { apply existsb_exists. exists x. split; [exact Hx|]. rewrite Lx, HK. cbn [andb]. rewrite andb_true_r.
+               apply existsb_exists. exists (e_id x). split; [|apply Z.eqb_refl]. apply in_map. apply filter_In. split; assumption. }
+             congruence. }
+           assert (Hi : (i < length (e_row x))%nat).
+           { rewrite (row_fits_len _ _ (Hrf x Hx)). apply nth_error_Some. rewrite Hd. discriminate. }
+           pose proof (has_keyval_nth _ _ i d Hk Hd K Hi) as Hn. fold (col_val i (e_row x)) in Hn.
+           apply is_null_eq in Hn. rewrite Hn. destruct v; try discriminate; reflexivity.
+        -- exact Hnn.
+        -- unfold ids_ok. cbn [ents]. split.
+           ++ apply (NoDup_map_filter _ _ HndC).
+           ++ intros e He. apply filter_In in He. apply Hid. tauto.
+        -- unfold rows_ok. cbn [ents idxs]. split; [|exact Hli]. intros e He. apply filter_In in He. apply Hrf. tauto.
+      * (* every remaining child still has its parent *)
+        unfold fk_ok. apply forallb_forall. intros r Hr. apply filter_In in Hr. destruct Hr as [Hr Gr].
+        unfold g in Gr. apply negb_true_iff in Gr. rewrite (Hcasc r gone (HlenC r Hr)) in Gr. cbn [Z.eqb andb] in Gr.
+        change (2 =? 2) with true in Gr. cbn [andb] in Gr. rewrite Hvg in Gr.
+        unfold fk_ok in V5. rewrite forallb_forall in V5. specialize (V5 r Hr). rewrite (Hrow r P (HlenC r Hr)) in V5.
+        rewrite (Hrow r P' (HlenC r Hr)). fold (col_val j r) in *.
+        destruct (is_null (col_val j r)) eqn:N; [reflexivity|]. cbn [negb andb orb] in *.
+        rewrite (Hkept _ N), V5, Gr. reflexivity.
+    + (* RESTRICT / NO ACTION *)
+      rewrite (child_scan_block j act vals _ A).
+      assert (Hlive : forall e, In e (ents (d_c st)) -> hit vals j e = true -> live e = true).
+      { intros e He Hh. unfold live. destruct (e_del e) eqn:D; [|reflexivity]. exfalso.
+        unfold del_dead_child, fk_cols in C16. rewrite FK in C16. cbn [existsb fst snd] in C16. rewrite A in C16. cbn [negb andb] in C16.
+        rewrite orb_false_r in C16.
+        assert (X : existsb (fun e0 => e_del e0 && existsb (veq (col_val j (e_row e0))) vals) (ents (d_c st)) = true).
+        { apply existsb_exists. exists e. split; [exact He|]. rewrite D. exact Hh. }
+        congruence. }
+      assert (Hg : forall r, In r C -> g r = true).
+      { intros r Hr. unfold g. rewrite (Hcasc r gone (HlenC r Hr)), A. reflexivity. }
+      destruct (existsb (hit vals j) (ents (d_c st))) eqn:B.
+      * (* blocked: some child would lose its parent *)
+        exists false, st. split; [reflexivity|]. split; [|exact I].
+        apply existsb_exists in B. destruct B as [e [He Hh]]. pose proof (Hlive e He Hh) as Le.
+        rewrite (Hhit e He Le) in Hh. apply andb_true_iff in Hh. destruct Hh as [N Hm]. apply negb_true_iff in N.
+        assert (Hr : In (e_row e) C). { unfold C, visible. apply in_map. apply filter_In. split; assumption. }
+        unfold exec_write, abs_db.
+        change (apply_stmt sch (visible (d_p st), visible (d_c st)) (SDel TP w)) with (P', filter g C).
+        rewrite (filter_true C g Hg).
+        assert (Hbad : valid_db sch (P', C) = false).
+        { destruct (valid_db sch (P', C)) eqn:Vd; [|reflexivity]. exfalso.
+          apply valid_split in Vd. destruct Vd as [_ [_ [_ [_ F]]]]. unfold fk_ok in F. rewrite forallb_forall in F.
+          specialize (F _ Hr). rewrite (Hrow _ P' (HlenC _ Hr)) in F. fold (col_val j (e_row e)) in F.
+          rewrite N in F. cbn [orb] in F. rewrite (Hkept _ N), Hm in F. rewrite andb_false_r in F. discriminate. }
+        rewrite Hbad. reflexivity.
+      * (* nothing references the deleted rows *)
+        exists true. eexists. split; [reflexivity|]. unfold abs_db at 1. apply Hmain.
+        -- rewrite drop_ids_nil. fold (visible (d_c st)). fold C. symmetry. exact (filter_true C g Hg).
+        -- apply (tinv_ext _ (d_c st)); [cbn [ents]; rewrite drop_ids_nil; reflexivity|reflexivity|exact Tc].
+        -- rewrite (filter_true C g Hg). unfold fk_ok. apply forallb_forall. intros r Hr.
+           unfold fk_ok in V5. rewrite forallb_forall in V5. specialize (V5 r Hr). rewrite (Hrow r P (HlenC r Hr)) in V5.
+           rewrite (Hrow r P' (HlenC r Hr)). fold (col_val j r) in *.
+           destruct (is_null (col_val j r)) eqn:N; [reflexivity|]. cbn [orb] in *. rewrite (Hkept _ N), V5. cbn [andb].
+           unfold C, visible in Hr. apply in_map_iff in Hr. destruct Hr as [e [Er He]]. apply filter_In in He. destruct He as [He Le].
+           assert (Hn : hit vals j e = false).
+           { destruct (hit vals j e) eqn:X; [|reflexivity]. exfalso.
+             assert (Y : existsb (hit vals j) (ents (d_c st)) = true) by (apply existsb_exists; exists e; split; assumption). congruence. }
+           rewrite (Hhit e He Le), Er, N in Hn. cbn [negb andb] in Hn. rewrite Hn. reflexivity.
+Qed.
+
+Theorem delete_exact_l sch st t w :
+  wf_schema sch -> Inv sch st -> stmt_class sch st (SDel t w) = 0 ->
+  exists ok st', impl_step sch st (SDel t w) = (Some ok, st') /\
+                 exec_write sch (abs_db st) (SDel t w) = (ok, abs_db st') /\ Inv sch st'.
+Proof.
+  intros W I Hc. cbn [impl_step]. destruct t.
+  - destruct (delete_p_exact sch st w W I Hc) as [ok [st' [H1 [H2 H3]]]]. exists ok, st'. rewrite H1. repeat split; assumption.
+  - assert (Hd : has_dead (select_rows (s_c sch) (d_c st) w) = false).
+    { cbn [stmt_class cols_of ts_of] in Hc. destruct (has_dead _); [discriminate|reflexivity]. }
+    destruct (delete_c_exact sch st w W I Hd) as [st' [H1 [H2 H3]]]. exists true, st'. rewrite H1. repeat split; assumption.
 Qed.
